@@ -25,7 +25,8 @@ import itertools
 _ids = itertools.count()
 CTX = {}
 ROLES = ['finish', 'middle', 'start']          # declaration order (reverse of the dependency order)
-ALL_ROLES = ['tally'] + ROLES                  # `tally` is a legacy deriver (no flow entry)
+ALL_ROLES = ['tally', 'tally2'] + ROLES        # `tally`, `tally2`: legacy derivers (no flow entry), run one at
+#                                                a time in this order (tally2 reads what tally wrote)
 FLOW = {'start': [], 'middle': [('start',)], 'finish': [('middle',)]}
 
 
@@ -34,6 +35,10 @@ def gen_case(rng):
     if c['splitter_at'] is not None:
         # the division by the mother's own step is the only structural change of such a scenario
         c.update(generate_at=None, divide_at=None, director='process')
+    elif rng.random() < 0.12:
+        # compartment `a` is moved to another store at run time (no process of it in flight: recorded finding F19)
+        c.update(move_at=rng.choice([1, 2, 3]), divide_at=None, slow=None, director='process', twin=False,
+                 entry=rng.choice(['parts', 'composite', 'store']))
     elif rng.random() < 0.12:
         # the engine starts without any compartment and without any step: the composite's flow is the empty dictionary
         c.update(bare=True, initial=[], generate_at=c['generate_at'] or 2, divide_at=None, director='process',
@@ -52,6 +57,9 @@ def _gen_case(rng):
 
 def corpus():
     return [
+        # compartment `a` (process, flow steps, two chained legacy derivers) is moved to another store at t=2
+        {'kind': 'dynflow', 'entry': 'parts', 'initial': ['a', 'z'], 'generate_at': None, 'divide_at': None, 'ticks': 5,
+         'x0': 0, 'slow': None, 'director': 'process', 'move_at': 2},
         # nothing but the director at the start (empty steps, empty flow); a compartment with steps is generated
         {'kind': 'dynflow', 'entry': 'composite', 'initial': [], 'generate_at': 2, 'divide_at': None, 'ticks': 4,
          'x0': 0, 'slow': None, 'director': 'process', 'bare': True},
@@ -120,7 +128,7 @@ def _classes():
 
         def ports_schema(self):
             sch = {v: {'_default': 0, '_emit': True, '_updater': 'set', '_divider': 'set'}
-                   for v in ('a', 'b', 'c', 't', 'i1', 'i2')}
+                   for v in ('a', 'b', 'c', 't', 't2', 'i1', 'i2')}
             sch['w'] = {'_default': 1, '_emit': True, '_updater': 'set', '_divider': 'set'}
             sch['x'] = {'_default': 0, '_emit': True, '_divider': 'set'}
             sch['name'] = {'_default': '', '_updater': 'set', '_divider': 'set'}
@@ -134,6 +142,8 @@ def _classes():
                 ctx['log'].append({'e': 'step', 'role': role, 't': ctx['now'](), 'phase': ctx['phase'](), 'x': v['x']})
             if role == 'tally':
                 return {'vars': {'t': v['x'] * 2}}
+            if role == 'tally2':
+                return {'vars': {'t2': v['t'] * 3}}
             if role == 'p':
                 return {'vars': {'w': v['w'] * 2}}
             if role == 'q':
@@ -172,7 +182,8 @@ def _classes():
         defaults = {'key': None, 'case': None}
 
         def ports_schema(self):
-            return {'agents': {'*': {'vars': {'x': {'_default': 0}}}}}
+            return {'agents': {'*': {'vars': {'x': {'_default': 0}}}},
+                    'agents2': {'*': {'vars': {'x': {'_default': 0}}}}}
 
         def next_update(self, timestep, states):
             ctx = CTX.get(self.parameters['key'])
@@ -185,6 +196,9 @@ def _classes():
                 upd['_divide'] = {'mother': 'a', 'daughters': [{'key': 'a0'}, {'key': 'a1'}]}
             if case.get('delete_at') is not None and t + 1 == case['delete_at'] and 'a' in states['agents']:
                 upd['_delete'] = ['a']
+            if case.get('move_at') is not None and t + 1 == case['move_at'] and 'a' in states['agents']:
+                # the compartment goes on in the other store, with its processes, flow steps and legacy derivers
+                upd['_move'] = [{'source': ('a',), 'target': 'agents2'}]
             return {'agents': upd} if upd else {}
 
     class DirectorStep(Step):
@@ -196,7 +210,8 @@ def _classes():
             self.n = 0
 
         def ports_schema(self):
-            return {'agents': {'*': {'vars': {'x': {'_default': 0}}}}}
+            return {'agents': {'*': {'vars': {'x': {'_default': 0}}}},
+                    'agents2': {'*': {'vars': {'x': {'_default': 0}}}}}
 
         def next_update(self, timestep, states):
             case = self.parameters['case']
@@ -263,7 +278,7 @@ def cell_composer(key, slow=None):
 
         def generate_steps(self, config):
             steps = compartment(key, 0, slow)['steps']
-            return steps if config['chain'] else {'tally': steps['tally']}
+            return steps if config['chain'] else {'tally': steps['tally'], 'tally2': steps['tally2']}
 
         def generate_flow(self, config):
             return compartment(key, 0, slow)['flow'] if config['chain'] else {}
@@ -290,7 +305,7 @@ def run_impl(case):
         def emit(self, data):
             c = CTX.get(self.config.get('ctx_key'))
             if c is not None and data['table'] == 'history':
-                agents = data['data'].get('agents') or {}
+                agents = dict(data['data'].get('agents') or {}, **(data['data'].get('agents2') or {}))
                 c['log'].append({'e': 'emit', 't': int(round(data['data']['time'])), 'phase': c['nphase'],
                                  'agents': {k: dict(v.get('vars') or {}) for k, v in agents.items()}})
                 c['nphase'] += 1          # every row closes one step phase
@@ -303,11 +318,11 @@ def run_impl(case):
             parts = {'processes': {'agents': {}},
                      'steps': {'director': DirectorStep({'key': key, 'case': case}), 'agents': {}},
                      'flow': {'agents': {}},
-                     'topology': {'agents': {}, 'director': {'agents': ('agents',)}}}
+                     'topology': {'agents': {}, 'director': {'agents': ('agents',), 'agents2': ('agents2',)}}}
         else:
             parts = {'processes': {'agents': {}, 'director': Director({'key': key, 'case': case})},
                      'steps': {'agents': {}}, 'flow': {'agents': {}},
-                     'topology': {'agents': {}, 'director': {'agents': ('agents',)}}}
+                     'topology': {'agents': {}, 'director': {'agents': ('agents',), 'agents2': ('agents2',)}}}
         if case.get('bare'):
             parts['steps'], parts['flow'] = {}, {}
         init = {'agents': {}}
@@ -322,9 +337,9 @@ def run_impl(case):
         def director_parts(c):
             if c.get('director') == 'deriver':
                 return dict(steps={'director': DirectorStep({'key': key, 'case': c})},
-                            topology={'director': {'agents': ('agents',)}})
+                            topology={'director': {'agents': ('agents',), 'agents2': ('agents2',)}})
             return dict(processes={'director': Director({'key': key, 'case': c})},
-                        topology={'director': {'agents': ('agents',)}})
+                        topology={'director': {'agents': ('agents',), 'agents2': ('agents2',)}})
 
         def nested(comp, k):
             return Composite({part: {'agents': {k: comp[part]}} for part in ('processes', 'steps', 'flow', 'topology')})
@@ -448,6 +463,11 @@ def oracle(case, impl, who=('order', 'values', 'once', 'published', 'alive')):
                     fails.append(f'deriver-skipped: at t={row["t"]} compartment {k} holds x={v["x"]} t={v["t"]}: its '
                                  f'legacy deriver (t = 2 x) did not run in this phase')
                     break
+                if 't2' in v and v['t2'] != 3 * v['t']:
+                    fails.append(f'deriver-order: at t={row["t"]} compartment {k} holds t={v["t"]} t2={v["t2"]}: its '
+                                 f'second legacy deriver (t2 = 3 t) did not see what the first one wrote in this phase '
+                                 f'(derivers run one at a time, in declaration order)')
+                    break
             if fails:
                 break
     if 'alive' in who and not fails:
@@ -501,7 +521,7 @@ def oracle(case, impl, who=('order', 'values', 'once', 'published', 'alive')):
             for r in ALL_ROLES:
                 # a deriver of a compartment that a later deriver removes in this very phase has had its turn; so
                 # have the steps of the first layer when a step of that layer divides their compartment
-                early = ('tally', 'start') if case.get('splitter_at') is not None else ('tally',)
+                early = ('tally', 'tally2', 'start') if case.get('splitter_at') is not None else ('tally', 'tally2')
                 slack = len(gone) if (r in early and by_deriver) else 0
                 if 'once' in who and not (n <= roles.count(r) <= n + slack) and not fails:
                     fails.append(f'once: in the phase at t={row["t"]} the step {r!r} ran {roles.count(r)} times for '
